@@ -78,7 +78,18 @@ type expectT struct {
 	SrvSess string  `json:"srvSess"`
 	Ops     []opRes `json:"ops"`
 }
+type tryT struct {
+	Sig   string `json:"sig"`
+	Sres  string `json:"sres"`
+	State string `json:"state"`
+	Chan  string `json:"chan"`
+}
+
 type row struct {
+	Prev    string   `json:"prev,omitempty"`    // opn rows: history of the server before this request ("none" | "secured")
+	Sres    string   `json:"sres,omitempty"`    // sig rows: class of the service result of the CreateSession response
+	Allowed []string `json:"allowed,omitempty"` // sig rows: client states the specification allows at the end
+	Tries   []tryT   `json:"tries,omitempty"`   // seq rows: Connect attempts on one client value
 	Kind   string          `json:"kind"`
 	Cfg    cfgT            `json:"cfg"`
 	Adv    []endp          `json:"adv"`
@@ -132,13 +143,16 @@ func main() {
 	case "overlap":
 		childOverlap()
 		return
+	case "connectseq":
+		childConnectSeq()
+		return
 	}
 	rows := vfgo.Cases[row]()
 	var sigRows []row
 	groups := map[string][]row{}
 	var order []string
 	for _, r := range rows {
-		if r.Kind == "sig" {
+		if r.Kind == "sig" || r.Kind == "seq" {
 			sigRows = append(sigRows, r)
 			continue
 		}
@@ -166,6 +180,10 @@ func main() {
 		go func(r row) {
 			defer wg.Done()
 			defer func() { <-sem }()
+			if r.Kind == "seq" {
+				runSeq(r)
+				return
+			}
 			runSig(r)
 		}(r)
 	}
@@ -341,7 +359,7 @@ func evalOpn(r row, o obs) {
 	var exp string
 	json.Unmarshal(r.Expect, &exp)
 	enabled := pairSet(r.Adv)[pair{r.Pol, r.Mode}]
-	class := fmt.Sprintf("opn/%s/%s/enabled=%v/%s", r.Pol, r.Mode, enabled, cfgShape(r.Cfg))
+	class := fmt.Sprintf("opn/%s/%s/enabled=%v/after=%s/%s", r.Pol, r.Mode, enabled, r.Prev, cfgShape(r.Cfg))
 	if o.Local {
 		// the real client cannot express this OPN; not driven
 		vfgo.Emit(vfgo.Result{Case: r, Status: "ok", Class: "", Nontrivial: false, Obs: "client library refuses to build this channel locally: " + o.Err})
@@ -354,6 +372,9 @@ func evalOpn(r row, o obs) {
 			key = "none-channel-opened-though-not-enabled"
 		} else if !supported(pair{r.Pol, r.Mode}) {
 			key = "channel-opened-for-invalid-policy-mode-combination"
+			if r.Prev == "secured" {
+				key = "channel-opened-for-invalid-policy-mode-combination/after-an-earlier-secured-connection"
+			}
 		}
 		vfgo.Violation(r, class, key, fmt.Sprintf("OPN %s/%s was accepted (client open=%v, server completed the OPN=%v, usable=%v) by a server that enabled only %v", r.Pol, r.Mode, o.Established, o.SrvOpened, o.Usable, r.Cfg.Pairs))
 	case exp == "open" && !o.Established:
@@ -559,7 +580,32 @@ func childServer() {
 	defer func() {
 		enc.Encode(obs{I: -2, Views: readViews("end", urlB, url)})
 	}()
-	for i, r := range job.Rows {
+	// Order of the run = the history the rows assume: first the rows whose specification state has no earlier
+	// secured connection (the requests with an invalid policy/mode combination before anything else, so that
+	// they really meet a server that has seen no client certificate yet), then an ordinary secured client
+	// connects, works and disconnects, then the rows with that history (again the invalid combinations first).
+	order := make([]int, len(job.Rows))
+	for i := range order {
+		order[i] = i
+	}
+	rank := func(r row) int {
+		k := 0
+		if r.Prev == "secured" {
+			k += 2
+		}
+		if r.Kind != "opn" || supported(pair{r.Pol, r.Mode}) {
+			k++
+		}
+		return k
+	}
+	sort.SliceStable(order, func(a, b int) bool { return rank(job.Rows[order[a]]) < rank(job.Rows[order[b]]) })
+	visited := false
+	for _, i := range order {
+		r := job.Rows[i]
+		if r.Prev == "secured" && !visited {
+			visited = true
+			securedVisit(url, job.Cfg, sk)
+		}
 		var o obs
 		switch r.Kind {
 		case "adv":
@@ -572,6 +618,24 @@ func childServer() {
 		o.I = i
 		enc.Encode(o)
 	}
+}
+
+// securedVisit is the earlier connection of the histories with prev = "secured": an ordinary client opens a
+// channel with a signing policy (an enabled pair if there is one), sends a request and disconnects.
+func securedVisit(url string, c cfgT, sk *keys.Pair) {
+	p := pair{"Basic256Sha256", "SignAndEncrypt"}
+	if c.Skey == 1024 {
+		p = pair{"Basic256", "SignAndEncrypt"}
+	}
+	for _, q := range c.Pairs {
+		if q.Pol != "None" {
+			p = q
+			break
+		}
+	}
+	ckey := c.Skey
+	doOpnClient(url, row{Pol: p.Pol, Mode: p.Mode, Ckey: ckey}, sk, 6*time.Second)
+	time.Sleep(150 * time.Millisecond) // the server notices the closed connection and releases what it held for it
 }
 
 // discoverURL connects to connectURL and asks for the endpoints of askURL (GetEndpointsRequest.EndpointURL).
@@ -795,7 +859,7 @@ func doOpnHandBuilt(url string, r row) obs {
 		o.Err = "write: " + err.Error()
 		return o
 	}
-	conn.SetReadDeadline(time.Now().Add(3 * time.Second))
+	conn.SetReadDeadline(time.Now().Add(1200 * time.Millisecond))
 	rb, err := conn.Receive()
 	switch {
 	case err != nil:
@@ -1048,6 +1112,223 @@ func childConnect() {
 	}
 }
 
+// ---- sequences of Connect attempts on ONE client value
+
+type seqJob struct {
+	connectJob
+	N int `json:"n"`
+}
+
+type attemptObs struct {
+	Err     string `json:"err"`
+	State   string `json:"state"`
+	Channel bool   `json:"channel"` // Client.SecureChannel() != nil after the attempt
+	Session bool   `json:"session"`
+	Sockets int    `json:"sockets"` // sockets of the process beyond the baseline before the first attempt
+}
+
+type seqObs struct {
+	Stage    string       `json:"stage"`
+	Err      string       `json:"err"`
+	Attempts []attemptObs `json:"attempts"`
+	Done     bool         `json:"done"`
+}
+
+func countSockets() int {
+	ents, err := os.ReadDir("/proc/self/fd")
+	if err != nil {
+		return -1
+	}
+	n := 0
+	for _, e := range ents {
+		if l, err := os.Readlink("/proc/self/fd/" + e.Name()); err == nil && strings.HasPrefix(l, "socket:") {
+			n++
+		}
+	}
+	return n
+}
+
+func childConnectSeq() {
+	var job seqJob
+	b, _ := io.ReadAll(os.Stdin)
+	if err := json.Unmarshal(b, &job); err != nil {
+		os.Exit(3)
+	}
+	enc := json.NewEncoder(os.Stdout)
+	var o seqObs
+	ctx, cancel := context.WithTimeout(context.Background(), 60*time.Second)
+	defer cancel()
+	eps, err := opcua.GetEndpoints(ctx, job.URL, opcua.RequestTimeout(5*time.Second))
+	if err != nil {
+		o.Stage, o.Err = "discover", err.Error()
+		enc.Encode(o)
+		return
+	}
+	ep, err := opcua.SelectEndpoint(eps, job.Pol, modeOf(job.Mode))
+	if err != nil {
+		o.Stage, o.Err = "select", err.Error()
+		enc.Encode(o)
+		return
+	}
+	opts := []opcua.Option{opcua.AuthAnonymous(), opcua.SecurityFromEndpoint(ep, ua.UserTokenTypeAnonymous),
+		opcua.AutoReconnect(false), opcua.RequestTimeout(5 * time.Second), opcua.DialTimeout(5 * time.Second)}
+	if job.Pol != "None" {
+		ck := keys.Bits(job.Ckey)
+		opts = append(opts, opcua.PrivateKey(ck.Key), opcua.Certificate(ck.Cert))
+	}
+	c, err := opcua.NewClient(job.URL, opts...) // ONE client value for all attempts
+	if err != nil {
+		o.Stage, o.Err = "newclient", err.Error()
+		enc.Encode(o)
+		return
+	}
+	time.Sleep(100 * time.Millisecond) // the discovery client's socket is gone by now
+	base := countSockets()
+	o.Stage = "connect"
+	for i := 0; i < job.N; i++ {
+		err := c.Connect(ctx)
+		a := attemptObs{State: c.State().String(), Channel: c.SecureChannel() != nil, Session: c.Session() != nil}
+		if err != nil {
+			a.Err = err.Error()
+			time.Sleep(50 * time.Millisecond)
+		}
+		a.Sockets = countSockets() - base
+		o.Attempts = append(o.Attempts, a)
+		if err == nil {
+			break
+		}
+	}
+	o.Done = true
+	enc.Encode(o)
+	os.Stdout.Sync()
+	c.Close(ctx)
+}
+
+// runSeq: the script answers the k-th CreateSession of the run with the k-th signature class of the row;
+// after every attempt the client must be as the specification says: after a failure Closed, no channel,
+// no session, no socket left; the last attempt with a valid signature must connect.
+func runSeq(r row) {
+	n := len(r.Tries)
+	sigs := make([]string, n)
+	for i, t := range r.Tries {
+		sigs[i] = t.Sig
+	}
+	class := fmt.Sprintf("seq/%s/%s/%s", r.Pol, r.Mode, strings.Join(sigs, ","))
+	var mu sync.Mutex
+	var scriptErr string
+	k := 0
+	var srv *scriptsrv.Server
+	h := func(sc *uasc.SecureChannel, reqID uint32, req ua.Request) ua.Response {
+		switch q := req.(type) {
+		case *ua.GetEndpointsRequest:
+			return &ua.GetEndpointsResponse{ResponseHeader: scriptsrv.Header(req, ua.StatusOK), Endpoints: []*ua.EndpointDescription{srv.Endpoint(r.Pol, r.Mode)}}
+		case *ua.CreateSessionRequest:
+			mu.Lock()
+			i := k
+			k++
+			mu.Unlock()
+			if i >= n {
+				i = n - 1
+			}
+			t := r.Tries[i]
+			vs := sigVariants[t.Sig]
+			pick := int(vfgo.Rand(int64(i*977 + len(t.Sig))).Intn(1 << 16))
+			variant := pick % len(vs)
+			sig, alg, err := signature(t.Sig, sc, srv, r.Pol, r.Ckey, q, variant, pick)
+			if err != nil {
+				mu.Lock()
+				scriptErr = err.Error()
+				mu.Unlock()
+				return scriptsrv.Fault(req, ua.StatusBadInternalError)
+			}
+			nonce := make([]byte, 32)
+			rand.Read(nonce)
+			return &ua.CreateSessionResponse{
+				ResponseHeader: scriptsrv.Header(req, serviceResult(t.Sres, pick)), SessionID: ua.NewNumericNodeID(1, uint32(4711+i)),
+				AuthenticationToken: ua.NewNumericNodeID(1, uint32(9000+i)), RevisedSessionTimeout: 60000, ServerNonce: nonce,
+				ServerCertificate: srv.Key.Cert, ServerEndpoints: []*ua.EndpointDescription{srv.Endpoint(r.Pol, r.Mode)},
+				ServerSoftwareCertificates: []*ua.SignedSoftwareCertificate{}, ServerSignature: &ua.SignatureData{Algorithm: alg, Signature: sig}}
+		case *ua.ActivateSessionRequest:
+			nonce := make([]byte, 32)
+			rand.Read(nonce)
+			return &ua.ActivateSessionResponse{ResponseHeader: scriptsrv.Header(req, ua.StatusOK), ServerNonce: nonce,
+				Results: []ua.StatusCode{}, DiagnosticInfos: []*ua.DiagnosticInfo{}}
+		case *ua.ReadRequest:
+			return scriptsrv.NamespaceArrayRead(q)
+		case *ua.CloseSessionRequest:
+			return &ua.CloseSessionResponse{ResponseHeader: scriptsrv.Header(req, ua.StatusOK)}
+		}
+		return scriptsrv.Fault(req, ua.StatusBadServiceUnsupported)
+	}
+	var err error
+	srv, err = scriptsrv.Start("2048b", h)
+	if err != nil {
+		vfgo.Inconclusive(r, "scripted server: "+err.Error())
+		return
+	}
+	defer srv.Close()
+	in, _ := json.Marshal(seqJob{connectJob{URL: srv.URL, Pol: r.Pol, Mode: r.Mode, Ckey: r.Ckey}, n})
+	out := vfgo.RunChild("connectseq", in, 90*time.Second)
+	var o seqObs
+	json.Unmarshal(bytes.TrimSpace(out.Stdout), &o)
+	mu.Lock()
+	se := scriptErr
+	mu.Unlock()
+	detail := fmt.Sprintf("policy=%s mode=%s signatures of the attempts=%v: child exit=%d panic=%v timedout=%v obs=%+v", r.Pol, r.Mode, sigs, out.Exit, out.Panic, out.TimedOut, o)
+	switch {
+	case se != "":
+		vfgo.Inconclusive(r, "script could not build a signature: "+se)
+		return
+	case out.Panic:
+		vfgo.Violation(r, class, "connect-panics-in-a-sequence-of-attempts", detail+"\n"+vfgo.PanicHead(out.Stderr))
+		return
+	case out.TimedOut || !o.Done:
+		vfgo.Inconclusive(r, "sequence could not be driven: "+detail+" "+tailStr(out.Stderr, 300))
+		return
+	}
+	for i, t := range r.Tries {
+		if i >= len(o.Attempts) {
+			vfgo.Violation(r, class, "connect-succeeds-despite-bad-server-signature", fmt.Sprintf("attempt %d was not needed: an earlier attempt connected. %s", i+1, detail))
+			return
+		}
+		a := o.Attempts[i]
+		at := fmt.Sprintf("attempt %d of %d (signature %s): ", i+1, n, t.Sig)
+		if t.State == "Connected" {
+			switch {
+			case a.Err != "" && i > 0:
+				vfgo.Violation(r, class, "connect-with-valid-signature-fails-after-earlier-failed-attempts", at+detail)
+				return
+			case a.Err != "" || !a.Session || !a.Channel:
+				vfgo.Violation(r, class, "connect-fails-with-valid-signature", at+detail)
+				return
+			}
+			// State() is not judged here: after earlier failed attempts the connection monitor may pick up a stale
+			// error of an old channel from the shared error channel and report Closed although Connect succeeded
+			// (a connection-state matter, C25); it is recorded in the observation.
+			continue
+		}
+		switch {
+		case a.Err == "" || a.State == "Connected":
+			vfgo.Violation(r, class, "connected-despite-bad-server-signature", at+detail)
+			return
+		case a.Channel || a.State == "Connecting":
+			key := "channel-left-open-after-failed-connect"
+			if i > 0 {
+				key = "channel-left-open-after-a-later-failed-connect"
+			}
+			vfgo.Violation(r, class, key, at+detail)
+			return
+		case a.Session:
+			vfgo.Violation(r, class, "session-kept-after-failed-connect", at+detail)
+			return
+		case a.Sockets > 0:
+			vfgo.Violation(r, class, "connection-left-open-after-failed-connect", at+detail)
+			return
+		}
+	}
+	vfgo.OK(r, class, o)
+}
+
 type overlapObs struct {
 	Stage      string `json:"stage"`
 	Err        string `json:"err"`
@@ -1298,8 +1579,28 @@ var sigVariants = map[string][]string{
 	"otherdata": {"certificate-only", "server-certificate+nonce", "certificate+fresh-nonce", "nonce+certificate"},
 }
 
+// serviceResult turns the row's class into a concrete status code (seeded choice inside the class)
+func serviceResult(class string, pick int) ua.StatusCode {
+	switch class {
+	case "goodsub":
+		return []ua.StatusCode{ua.StatusGoodCompletesAsynchronously, ua.StatusGoodOverload, ua.StatusGoodClamped}[pick%3]
+	case "uncertain":
+		return []ua.StatusCode{ua.StatusUncertain, ua.StatusUncertainSubNormal}[pick%2]
+	case "bad":
+		return []ua.StatusCode{ua.StatusBadInternalError, ua.StatusBadUnexpectedError, ua.StatusBadResourceUnavailable}[pick%3]
+	}
+	return ua.StatusOK
+}
+
 func runSig(r row) {
 	vs := sigVariants[r.Sig]
+	if r.Sres != "" && r.Sres != "good" {
+		// non-Good service results: one member of the signature class per row (seeded), all four status classes
+		i := int(vfgo.Rand(int64(len(r.Pol)*13+len(r.Mode)*5+len(r.Sig)+len(r.Sres)*3)).Intn(len(vs)))
+		res, _ := runSigVariant(r, i, vs[i], false)
+		vfgo.Emit(res)
+		return
+	}
 	var last vfgo.Result
 	for i := range vs {
 		res, final := runSigVariant(r, i, vs[i], i == len(vs)-1)
@@ -1324,8 +1625,21 @@ func runSigVariant(r row, variant int, vname string, lastVariant bool) (vfgo.Res
 	}
 	var exp expectT
 	json.Unmarshal(r.Expect, &exp)
-	class := fmt.Sprintf("sig/%s/%s/%s", r.Pol, r.Mode, r.Sig)
+	sres := r.Sres
+	if sres == "" {
+		sres = "good"
+	}
+	class := fmt.Sprintf("sig/%s/%s/%s/result-%s", r.Pol, r.Mode, r.Sig, sres)
 	pick := int(vfgo.Rand(int64(len(r.Pol)*7 + len(r.Mode)*3 + len(r.Sig) + variant*101)).Intn(1 << 16))
+	status := serviceResult(sres, pick)
+	mayConnect, mayFail := exp.State == "Connected", exp.State != "Connected"
+	for _, a := range r.Allowed {
+		if a == "Connected" {
+			mayConnect = true
+		} else {
+			mayFail = true
+		}
+	}
 	sigClass := r.Sig
 	if sigClass == "na" {
 		sigClass = "valid"
@@ -1353,7 +1667,7 @@ func runSigVariant(r row, variant int, vname string, lastVariant bool) (vfgo.Res
 			nonce := make([]byte, 32)
 			rand.Read(nonce)
 			return &ua.CreateSessionResponse{
-				ResponseHeader:             scriptsrv.Header(req, ua.StatusOK),
+				ResponseHeader:             scriptsrv.Header(req, status),
 				SessionID:                  ua.NewNumericNodeID(1, 4711),
 				AuthenticationToken:        ua.NewNumericNodeID(1, 4712),
 				RevisedSessionTimeout:      60000,
@@ -1389,7 +1703,7 @@ func runSigVariant(r row, variant int, vname string, lastVariant bool) (vfgo.Res
 	mu.Lock()
 	se := scriptErr
 	mu.Unlock()
-	detail := fmt.Sprintf("policy=%s mode=%s signature=%s/%s(%d): child exit=%d panic=%v timedout=%v obs=%+v serverSawActivate=%v", r.Pol, r.Mode, r.Sig, vname, pick, out.Exit, out.Panic, out.TimedOut, o, activated)
+	detail := fmt.Sprintf("policy=%s mode=%s serviceResult=%s(0x%08X) signature=%s/%s(%d): child exit=%d panic=%v timedout=%v obs=%+v serverSawActivate=%v", r.Pol, r.Mode, sres, uint32(status), r.Sig, vname, pick, out.Exit, out.Panic, out.TimedOut, o, activated)
 	if se != "" {
 		return inconc("script could not build the signature: " + se), true
 	}
@@ -1398,7 +1712,7 @@ func runSigVariant(r row, variant int, vname string, lastVariant bool) (vfgo.Res
 		if strings.Contains(out.Stderr, "ActivateSession") && strings.Contains(out.Stderr, "nil pointer") {
 			key = "connect-panics-nil-session-after-bad-server-signature"
 		}
-		if exp.State == "Connected" {
+		if mayConnect && !mayFail {
 			key = "connect-panics-with-valid-signature"
 		}
 		return viol(class, key, detail+"\n"+vfgo.PanicHead(out.Stderr)), true
@@ -1409,7 +1723,7 @@ func runSigVariant(r row, variant int, vname string, lastVariant bool) (vfgo.Res
 		}
 		return inconc("child did not finish: " + detail + " " + tailStr(out.Stderr, 300)), true
 	}
-	if exp.State == "Connected" {
+	if mayConnect && !mayFail {
 		switch {
 		case o.Err != "":
 			return viol(class, "connect-fails-with-valid-signature", detail), true
@@ -1418,8 +1732,23 @@ func runSigVariant(r row, variant int, vname string, lastVariant bool) (vfgo.Res
 		}
 		return okRes(class, o), true
 	}
+	if mayConnect && mayFail {
+		// verified signature on a response whose service result is Good-with-subcode / Uncertain: both outcomes conform
+		if (o.Err == "") != (o.State == "Connected") {
+			return viol(class, "connect-result-and-state-disagree", detail), true
+		}
+		return okRes(class, map[string]any{"connect": o, "either": true}), true
+	}
 	// bad signature: error, not connected, no session activated on the server
+	if r.Sig == "valid" || r.Sig == "na" { // refused because of the Bad service result, not the signature
+		if o.Err == "" || o.State == "Connected" {
+			return viol(class, "connected-despite-bad-service-result", detail), true
+		}
+		return okRes(class, o), true
+	}
 	switch {
+	case o.Err == "" && o.State == "Connected" && sres != "good":
+		return viol(class, "connected-despite-bad-server-signature/service-result-"+sres, detail), true
 	case o.Err == "" && o.State == "Connected":
 		return viol(class, "connected-despite-bad-server-signature", detail), true
 	case o.Err == "":
